@@ -108,9 +108,13 @@ func vfWSpell(l vfWLine) string {
 func vfWCert(dir string) (string, string) { return vfWCertSerial(dir, 7, "") }
 
 func vfWCertSerial(dir string, serial int64, suffix string) (string, string) {
+	return vfWCertNames(dir, serial, suffix, "vf.test")
+}
+
+func vfWCertNames(dir string, serial int64, suffix string, names ...string) (string, string) {
 	k, _ := ecdsa.GenerateKey(elliptic.P256(), rand.Reader)
-	tmpl := &x509.Certificate{SerialNumber: big.NewInt(serial), Subject: pkix.Name{CommonName: "vf.test"}, NotBefore: time.Now().Add(-time.Hour),
-		NotAfter: time.Now().Add(24 * time.Hour), DNSNames: []string{"vf.test"}}
+	tmpl := &x509.Certificate{SerialNumber: big.NewInt(serial), Subject: pkix.Name{CommonName: names[0]}, NotBefore: time.Now().Add(-time.Hour),
+		NotAfter: time.Now().Add(24 * time.Hour), DNSNames: names}
 	der, _ := x509.CreateCertificate(rand.Reader, tmpl, tmpl, &k.PublicKey, k)
 	kb, _ := x509.MarshalECPrivateKey(k)
 	crt, key := filepath.Join(dir, "tls.crt"+suffix), filepath.Join(dir, "tls.key"+suffix)
@@ -453,6 +457,39 @@ func vfWRun(t *testing.T, c vfWConfig) vfWOut {
 			ph["want"] = serial
 			out.Certs = append(out.Certs, ph)
 		}
+	}
+	if c.Certs {
+		// a rotation that changes what the certificate covers (the operator renamed the service): the pair on disk is the only pair there
+		// is, also for clients that still ask for the old name - what they make of it is their business
+		probe := func() *tls.Config { return &tls.Config{} }
+		kinds2 := func() map[string]int64 {
+			d := func(cfg *tls.Config) int64 {
+				raw, err := (&net.Dialer{Timeout: 3 * time.Second}).Dial("tcp", addr)
+				if err != nil {
+					return -1
+				}
+				defer raw.Close()
+				raw.SetDeadline(time.Now().Add(5 * time.Second))
+				cfg.InsecureSkipVerify = true
+				tc := tls.Client(raw, cfg)
+				if err := tc.Handshake(); err != nil {
+					return -1
+				}
+				if pc := tc.ConnectionState().PeerCertificates; len(pc) > 0 {
+					return pc[0].SerialNumber.Int64()
+				}
+				return -1
+			}
+			return map[string]int64{"old_name": d(&tls.Config{ServerName: "vf.test"}), "new_name": d(&tls.Config{ServerName: "renamed.test"}), "no_sni": d(probe()),
+				"old_name_tls12": d(&tls.Config{ServerName: "vf.test", MaxVersion: tls.VersionTLS12}), "old_name_h2": d(&tls.Config{ServerName: "vf.test", NextProtos: []string{"h2"}})}
+		}
+		vfWCertNames(dir, 10, "", "renamed.test")
+		for i := 0; i < 100 && kinds2()["no_sni"] != 10; i++ {
+			time.Sleep(50 * time.Millisecond)
+		}
+		ph := kinds2()
+		ph["want"] = 10
+		out.Certs = append(out.Certs, ph)
 	}
 	if c.Timeouts {
 		// a client that never starts the handshake, and idle connections after one request, must be cut by the proxy
